@@ -190,6 +190,8 @@ func ValueModel(v reflect.Value, t M) M {
 		return M{"g": "float", "lit": Bytes([]byte(strconv.FormatFloat(v.Float(), 'g', -1, 64)))}
 	case "str":
 		return M{"g": "str", "bytes": Bytes([]byte(v.String()))}
+	case "number":
+		return M{"g": "number", "lit": Bytes([]byte(v.String()))}
 	case "bytes":
 		return M{"g": "bytes", "nil": v.IsNil(), "b": Bytes(v.Bytes())}
 	case "slice", "tslice":
